@@ -5,7 +5,8 @@ Engine `FileHash` (DESIGN §5.3, file-cache part; property C09).
 Mirrors, in pydra/utils/hash.py of the pinned tree:
 
 * `bytes_repr_fileset`  — first yielded item is the cache key
-      `(repr(path)…, lstat(path).st_mtime_ns…)`             (no size, no content, no inode)
+      `tuple(repr(p) for p in fspaths) + tuple(p.lstat().st_mtime_ns for p in fspaths)`, fspaths sorted
+      (every member's path and every member's own mtime, in the same order; no size, no content, no inode)
 * `hash_single`         — key := `(type.__module__, type.__name__) + first`, then
       `cache.persistent.get_or_calculate_hash(key, calc_hash)`
 * `PersistentCache.get_or_calculate_hash`
@@ -22,8 +23,9 @@ file-set classes, sessions (= live `PersistentCache` objects / processes) and co
 A cache entry stores the *content version the digest was computed from*; the digest handed back by the
 code is `H cls version` for an arbitrary function `H` (BLAKE2b in the code) — see `digestOf`.  Nothing
 about `H` is assumed anywhere.
-A single-path file-set (File, or Directory with its top-level mtime) is modelled; "content" of a directory is
-the content of the whole tree, its "mtime" the `lstat` mtime of the directory itself (what the key uses).
+A file-set is a class and a non-empty list of top-level paths (`sorted(fileset.fspaths)`; one path for File or
+Directory, two for a header/data pair, any number for `SetOf[File]`).  "Content" of a directory member is the
+content of the whole tree, its "mtime" the `lstat` mtime of the directory itself (what the key uses).
 -/
 namespace PydraModel.FileHash
 
@@ -33,13 +35,19 @@ abbrev Mtime := Nat
 abbrev Cls := Nat
 abbrev Sess := Nat
 
-/-- The code's persistent-cache key for a single-path file-set:
-    `(cls.__module__, cls.__name__, repr(path), lstat(path).st_mtime_ns)`. -/
+/-- The code's persistent-cache key for a file-set with members `paths` (in `sorted(fspaths)` order):
+    `(cls.__module__, cls.__name__, repr(p₁), …, repr(pₙ), mtime_ns(p₁), …, mtime_ns(pₙ))`. -/
 structure Key where
   cls : Cls
-  path : Path
-  mtime : Mtime
+  paths : List Path
+  mtimes : List Mtime
 deriving DecidableEq, Repr
+
+/-- How the key is put together from class, member paths and member mtimes. -/
+abbrev KeyFn := Cls → List Path → List Mtime → Key
+
+/-- The pinned tree's key: every member's path and every member's mtime, positionally. -/
+def keyOf : KeyFn := fun cls ps ms => ⟨cls, ps, ms⟩
 
 /-- File system: what is at a path (content version, mtime), if anything. -/
 abbrev FS := Path → Option (Content × Mtime)
@@ -49,12 +57,20 @@ def FS.empty : FS := fun _ => none
 def FS.set (fs : FS) (p : Path) (v : Option (Content × Mtime)) : FS :=
   fun q => if q = p then v else fs q
 
+/-- All members of a file-set, or `none` if one is missing (constructing the file-set raises). -/
+def readAll (fs : FS) : List Path → Option (List (Content × Mtime))
+  | [] => some []
+  | p :: ps =>
+    match fs p, readAll fs ps with
+    | some x, some xs => some (x :: xs)
+    | _, _ => none
+
 structure State where
   fs : FS
-  /-- files in `PYDRA_HASH_CACHE`: key ↦ content version whose digest is stored -/
-  disk : List (Key × Content)
+  /-- files in `PYDRA_HASH_CACHE`: key ↦ content versions (one per member) whose digest is stored -/
+  disk : List (Key × List Content)
   /-- `PersistentCache._hashes` of every live session -/
-  mem : List ((Sess × Key) × Content)
+  mem : List ((Sess × Key) × List Content)
 
 def init : State := ⟨FS.empty, [], []⟩
 
@@ -68,10 +84,10 @@ inductive Op
   | rename (p q : Path)
   /-- `shutil.copy2(p, q)`: content and mtime are copied -/
   | copy2 (p q : Path)
-  /-- `hash_object(cls(p), persistent_cache=<the PersistentCache object of session s>)` -/
-  | hash (s : Sess) (cls : Cls) (p : Path)
-  /-- `hash_function(cls(p))`: a brand-new `PersistentCache` (empty in-memory dict) on the same directory -/
-  | hashFresh (cls : Cls) (p : Path)
+  /-- `hash_object(cls(ps), persistent_cache=<the PersistentCache object of session s>)` -/
+  | hash (s : Sess) (cls : Cls) (ps : List Path)
+  /-- `hash_function(cls(ps))`: a brand-new `PersistentCache` (empty in-memory dict) on the same directory -/
+  | hashFresh (cls : Cls) (ps : List Path)
   /-- session `s` ends and a new process / `PersistentCache` object takes its place: in-memory dict dropped -/
   | newProcess (s : Sess)
   /-- `PersistentCache().clean_up()`: the entries whose atime is too old (`victims`) are unlinked -/
@@ -98,30 +114,37 @@ def fsStep (fs : FS) : Op → FS
     | none => fs
   | _ => fs
 
-/-- `hash_single` on a file-set + `get_or_calculate_hash`.  `sess = none` is a throw-away `PersistentCache`. -/
-def hashWith (st : State) (sess : Option Sess) (cls : Cls) (p : Path) : State × Option Content :=
-  match st.fs p with
-  | none => (st, none)                                   -- `cls(p)` raises FileNotFoundError
-  | some (c, m) =>
-    let k : Key := ⟨cls, p, m⟩
+/-- `hash_single` on a file-set + `get_or_calculate_hash`, for a given way `kf` of building the key.
+    `sess = none` is a throw-away `PersistentCache`. -/
+def hashWithK (kf : KeyFn) (st : State) (sess : Option Sess) (cls : Cls) (ps : List Path) :
+    State × Option (List Content) :=
+  match readAll st.fs ps with
+  | none => (st, none)                                   -- `cls(ps)` raises (a member is missing)
+  | some cms =>
+    let k : Key := kf cls ps (cms.map Prod.snd)
+    let v : List Content := cms.map Prod.fst
     match sess.bind (fun s => st.mem.lookup (s, k)) with
-    | some v => (st, some v)                             -- 1. in-memory dict
+    | some w => (st, some w)                             -- 1. in-memory dict
     | none =>
       match st.disk.lookup k with
-      | some v => (st, some v)                           -- 2. file exists (not copied to memory)
-      | none =>                                          -- 3. calculate from the content as it is now
+      | some w => (st, some w)                           -- 2. file exists (not copied to memory)
+      | none =>                                          -- 3. calculate from the contents as they are now
         ({ st with
-            disk := (k, c) :: st.disk,
+            disk := (k, v) :: st.disk,
             mem := match sess with
-              | some s => ((s, k), c) :: st.mem
-              | none => st.mem }, some c)
+              | some s => ((s, k), v) :: st.mem
+              | none => st.mem }, some v)
 
-/-- One operation: new state and, for hash operations on an existing file, the content version whose
+/-- The pinned tree. -/
+def hashWith (st : State) (sess : Option Sess) (cls : Cls) (ps : List Path) : State × Option (List Content) :=
+  hashWithK keyOf st sess cls ps
+
+/-- One operation: new state and, for hash operations on a complete file-set, the content versions whose
     digest is returned. -/
-def step (st : State) (op : Op) : State × Option Content :=
+def step (st : State) (op : Op) : State × Option (List Content) :=
   match op with
-  | .hash s cls p => hashWith st (some s) cls p
-  | .hashFresh cls p => hashWith st none cls p
+  | .hash s cls ps => hashWith st (some s) cls ps
+  | .hashFresh cls ps => hashWith st none cls ps
   | .newProcess s => ({ st with mem := st.mem.filter (fun e => e.1.1 != s) }, none)
   | .cleanUp vs => ({ st with disk := st.disk.filter (fun e => !vs.contains e.1) }, none)
   | op => ({ st with fs := fsStep st.fs op }, none)
@@ -131,68 +154,62 @@ def exec (st : State) : List Op → State
   | [] => st
   | op :: ops => exec (step st op).1 ops
 
-/-- Answers of a history, one per operation (`none` for non-hash operations and missing files). -/
-def run (st : State) : List Op → List (Option Content)
+/-- Answers of a history, one per operation (`none` for non-hash operations and incomplete file-sets). -/
+def run (st : State) : List Op → List (Option (List Content))
   | [] => []
   | op :: ops => (step st op).2 :: run (step st op).1 ops
 
-/-- The property's reference: a hash operation answers with the content the file has *now*. -/
-def specOut (fs : FS) : Op → Option Content
-  | .hash _ _ p => (fs p).map (·.1)
-  | .hashFresh _ p => (fs p).map (·.1)
+/-- The same machine with another key construction (used only to document, by witnesses, why each member's
+    own mtime must be in the key: `C09_key_*_refuted`). -/
+def stepK (kf : KeyFn) (st : State) (op : Op) : State × Option (List Content) :=
+  match op with
+  | .hash s cls ps => hashWithK kf st (some s) cls ps
+  | .hashFresh cls ps => hashWithK kf st none cls ps
+  | op => step st op
+
+def runK (kf : KeyFn) (st : State) : List Op → List (Option (List Content))
+  | [] => []
+  | op :: ops => (stepK kf st op).2 :: runK kf (stepK kf st op).1 ops
+
+/-- The property's reference: a hash operation answers with the contents the members have *now*. -/
+def specOut (fs : FS) : Op → Option (List Content)
+  | .hash _ _ ps => (readAll fs ps).map (·.map Prod.fst)
+  | .hashFresh _ ps => (readAll fs ps).map (·.map Prod.fst)
   | _ => none
 
-def specRun (fs : FS) : List Op → List (Option Content)
+def specRun (fs : FS) : List Op → List (Option (List Content))
   | [] => []
   | op :: ops => specOut fs op :: specRun (fsStep fs op) ops
 
-/-- The digest the caller sees: `H` of the class and of the content version the answer stems from. -/
-def digestOf {D : Type} (H : Cls → Content → D) : Op → Option Content → Option D
-  | .hash _ cls _, some v => some (H cls v)
-  | .hashFresh cls _, some v => some (H cls v)
+/-- The digest the caller sees: `H` of the class, the member names and the content versions the answer stems from. -/
+def digestOf {D : Type} (H : Cls → List Path → List Content → D) : Op → Option (List Content) → Option D
+  | .hash _ cls ps, some v => some (H cls ps v)
+  | .hashFresh cls ps, some v => some (H cls ps v)
   | _, _ => none
 
-def digests {D : Type} (H : Cls → Content → D) (ops : List Op) (outs : List (Option Content)) : List (Option D) :=
+def digests {D : Type} (H : Cls → List Path → List Content → D) (ops : List Op)
+    (outs : List (Option (List Content))) : List (Option D) :=
   List.zipWith (digestOf H) ops outs
 
 /-! ### the decidable history predicate -/
 
-/-- Some cache entry (on disk or in any session's memory) is keyed on `p` with `p`'s *current* mtime but was
-    computed from a content different from `p`'s current content. -/
-def staleAt (st : State) (p : Path) : Bool :=
-  match st.fs p with
+/-- A cache entry is stale: all members of its file-set exist, each has *now* exactly the mtime recorded in
+    the key, and yet the entry was computed from other contents. -/
+def staleEntry (fs : FS) (k : Key) (v : List Content) : Bool :=
+  match readAll fs k.paths with
   | none => false
-  | some (c, m) =>
-    st.disk.any (fun e => e.1.path == p && e.1.mtime == m && e.2 != c) ||
-    st.mem.any (fun e => e.1.2.path == p && e.1.2.mtime == m && e.2 != c)
+  | some cms => cms.map Prod.snd == k.mtimes && v != cms.map Prod.fst
 
-/-- Paths whose (content, mtime) an operation may set. -/
-def touched : Op → List Path
-  | .write p _ _ => [p]
-  | .utime p _ => [p]
-  | .rename _ q => [q]
-  | .copy2 _ q => [q]
-  | _ => []
+/-- Some entry on disk or in some session's memory is stale. -/
+def anyStale (st : State) : Bool :=
+  st.disk.any (fun e => staleEntry st.fs e.1 e.2) || st.mem.any (fun e => staleEntry st.fs e.1.2 e.2)
 
-/-- After every file operation, no cache entry is keyed on the new `(path, mtime)` with another content. -/
-def freshFrom (st : State) : List Op → Bool
-  | [] => true
-  | op :: ops =>
-    (touched op).all (fun p => !staleAt (step st op).1 p) && freshFrom (step st op).1 ops
-
-/-- `MtimeFresh h`: every change of a path's (content, mtime) in `h` lands on a `(path, mtime)` pair for which
-    no live cache entry (disk or memory, any class, any session) holds a different content.  Decidable: it is a
-    Boolean computed by running the model. -/
-def MtimeFresh (ops : List Op) : Prop := freshFrom init ops = true
-
-instance (ops : List Op) : Decidable (MtimeFresh ops) := by unfold MtimeFresh; infer_instance
-
-/-- Index of the first operation that breaks `MtimeFresh` (for the harness's match rule cross-check). -/
-def firstStale (st : State) : List Op → Nat → Option Nat
-  | [], _ => none
-  | op :: ops, i =>
-    if (touched op).all (fun p => !staleAt (step st op).1 p) then firstStale (step st op).1 ops (i + 1)
-    else some i
+def Op.isFsOp : Op → Bool
+  | .write _ _ _ => true
+  | .utime _ _ => true
+  | .rename _ _ => true
+  | .copy2 _ _ => true
+  | _ => false
 
 def Op.isCleanUp : Op → Bool
   | .cleanUp _ => true
@@ -203,6 +220,43 @@ def Op.isHash : Op → Bool
   | .hashFresh _ _ => true
   | _ => false
 
+/-- After every file operation no cache entry is stale. -/
+def freshFrom (st : State) : List Op → Bool
+  | [] => true
+  | op :: ops => (!op.isFsOp || !anyStale (step st op).1) && freshFrom (step st op).1 ops
+
+/-- `MtimeFresh h`: every file operation of `h` leaves the members of every cached file-set in a state that
+    either differs from the cached key in some member's mtime (or a member is gone), or has the cached
+    contents — for every live entry, on disk or in any session's memory, of any class.  Decidable: it is a
+    Boolean computed by running the model. -/
+def MtimeFresh (ops : List Op) : Prop := freshFrom init ops = true
+
+instance (ops : List Op) : Decidable (MtimeFresh ops) := by unfold MtimeFresh; infer_instance
+
+/-- Index of the first operation that breaks `MtimeFresh` (for the harness's match rule cross-check). -/
+def firstStale (st : State) : List Op → Nat → Option Nat
+  | [], _ => none
+  | op :: ops, i =>
+    if !op.isFsOp || !anyStale (step st op).1 then firstStale (step st op).1 ops (i + 1) else some i
+
 def noCleanUp (ops : List Op) : Bool := ops.all (fun o => !o.isCleanUp)
+
+/-! ### key constructions that lose information (documentation; refuted in Props/C09.lean) -/
+
+/-- one aggregate mtime: the newest member -/
+def keyMax : KeyFn := fun cls ps ms => ⟨cls, ps, [ms.foldl max 0]⟩
+/-- one aggregate mtime: the sum -/
+def keySum : KeyFn := fun cls ps ms => ⟨cls, ps, [ms.foldl (· + ·) 0]⟩
+/-- only the first member's mtime -/
+def keyFirst : KeyFn := fun cls ps ms => ⟨cls, ps, ms.take 1⟩
+
+/-- insertion sort (ascending) -/
+def insSorted (x : Nat) : List Nat → List Nat
+  | [] => [x]
+  | y :: ys => if x ≤ y then x :: y :: ys else y :: insSorted x ys
+def sortNat (l : List Nat) : List Nat := l.foldr insSorted []
+
+/-- the positional link between paths and mtimes is dropped (mtimes as a sorted multiset) -/
+def keyUnordered : KeyFn := fun cls ps ms => ⟨cls, ps, sortNat ms⟩
 
 end PydraModel.FileHash
